@@ -174,6 +174,12 @@ theorem C13_client_recv (logs : List Nat) :
   · have := recvHandle_logs logs [] none
     simpa [recvHandle] using this
 
+/-- witness of the client-side finding: a LOG record waiting in the pipe when a call starts
+ends that call with AttributeError (→ 'Server connection unexpectedly closed.'), whereas the
+receive loop proper passes LOGs through (`C13_client_recv`) -/
+theorem C13_client_stale_log_witness (x : Nat) (rest : List CMsg) :
+    preDrain (CMsg.log x :: rest) = .attributeError := rfl
+
 /-! ## non-vacuity -/
 
 /-- a reachable two-client state with a running task of client 1 -/
